@@ -31,7 +31,7 @@ PID = "C01"
 TECHNIQUE = "bounded exhaustive enumeration of trees x configurations (hash seed, field order) in separate processes; partition by content_id joined and compared with the partition by structural key"
 RULE = (
     "every worker (hash seed x field-order permutation) enumerates: (a) all trees with < N nodes over the structural "
-    "universe with a 2-value property alphabet and all trees with exactly N nodes with a 1-value alphabet, (b) all trees with <= 2 (thorough 3) nodes over the full 25-value alphabet, "
+    "universe with a 2-value property alphabet and all trees with exactly N nodes with a 1-value alphabet, (b) all trees with <= 2 (thorough 3) nodes over the full value alphabet (look-alike scalars, tuples, sets in both insertion orders - also nested in tuples of tuples), "
     "(c) the string-attack class AP(a, b, c) for all strings of <= T tokens from {'1','2'} + the library's separators + "
     "format-derived tokens, child c in {None, leaf}.  states = distinct structural keys; transitions = nodes built and "
     "digested; evaluations = partition memberships + is_equal pairs + invariance probes; non-trivial = distinct keys that "
@@ -139,7 +139,10 @@ _FS_A, _FS_B = _order_sensitive_pair()
 VALUES = [_FS_A, _FS_B, frozenset([(1, 2), (2, 1)]), frozenset([(2, 1), (1, 2)]), frozenset([frozenset(), frozenset({1})]),
           0, 1, True, False, None, "0", "1", "", "True", "None", "(1, 2)", AE.A, AE.B, (1, 2), (2, 1), ("1", 2), (1, "2"), (),
           (1, True), (1, 1), (True, 1), (0, False), (0, 0), frozenset([1, 2]), frozenset([2, 1]), frozenset([8, 16, 0]), frozenset([16, 8, 0]), frozenset(), frozenset(["a", "b", "c"]),
-          frozenset(["c", "b", "a"])]
+          frozenset(["c", "b", "a"]),
+          # the same sets one and two tuple levels down (a set is an unordered value wherever it sits)
+          (_FS_A,), (_FS_B,), ((_FS_A,),), ((_FS_B,),), (1, (frozenset([8, 16, 0]),)), (1, (frozenset([16, 8, 0]),)),
+          ((frozenset(["a", "b", "c"]),),), ((frozenset(["c", "b", "a"]),),)]
 
 
 def make_universes(order: int):
